@@ -10,5 +10,35 @@ func init() {
 	})
 }
 
+func init() {
+	register("C01", &Property{
+		Title: "Boolean path operations compute the set algebra of the filled regions",
+		Explanation: "Decides the finite tables of the boolean operations for every input that reaches them: each public wrapper passes the op constant of its name, its own operands and NonZero; SweepPoint.InResult's per-op membership expressions equal the property's truth table over (subject fills, clipping fills) on each side of an edge and an edge is kept iff filling changes; the pathOp switch is exhaustive; bentleyOttmann's four early-outs (Q empty, P empty, disjoint sub-path of P, of Q) keep an operand exactly for the ops whose truth table keeps it. NOT decided: the sweep itself, snap rounding, overlap merging, contour tracing, termination, area laws.",
+		Run: func(c *core.Ctx, r *core.Report) {
+			E9Wrappers(c, r, map[string]bool{"And": true, "Or": true, "Xor": true, "Not": true, "DivideBy": true})
+			E9InResult(c, r, []string{"opAND", "opOR", "opNOT", "opXOR", "opDIV"})
+			E9Shortcuts(c, r)
+		},
+	})
+	register("C02", &Property{
+		Title: "Settle preserves the filled region and returns a canonical simple path",
+		Explanation: "Decides: FillRule.Fills is definite on the sign×parity classes of the winding number and equals each rule's definition, with a case for all four rules; the Settle entry points pass nil, opSettle and their own fill rule to the sweep; opSettle membership is the subject's own fill on each side; settling an empty path yields the empty path. NOT decided: canonical form, hole orientation, idempotence, the sweep.",
+		Run: func(c *core.Ctx, r *core.Report) {
+			E9Fills(c, r)
+			E9Wrappers(c, r, map[string]bool{"Settle": true})
+			E9InResult(c, r, []string{"opSettle"})
+		},
+	})
+	register("C06", &Property{
+		Title: "Containment and winding queries agree with the path's winding number",
+		Explanation: "Decides: in RayIntersections the per-segment pre-filter hull is a pure Min/Max tree over start, end and every decoded control point (arc: centre∓max(rx,ry)), so no segment the ray can cross is skipped; Contains returns fillRule.Fills(n) for n from Windings(x, y); Windings/Crossings visit every element of Split(); Fills agrees with the rule definitions. NOT decided: the ray/segment case analysis at end points, horizontals and tangents, CCW, Filling's nesting logic.",
+		Run: func(c *core.Ctx, r *core.Report) {
+			E3RayHull(c, r)
+			E9ContainsFlow(c, r)
+			E9Fills(c, r)
+		},
+	})
+}
+
 // RunMutant is the entry point of the self-validation sub-process (thorough tier).
 func RunMutant(args []string) int { return runMutant(args) }
